@@ -30,7 +30,7 @@ fn canary_ok(c: &[u8]) -> bool {
 macro_rules! slices {
     ($rep:ident, $T:ident, $S:ident, $N:expr, $from:ident, $write:ident, $arr:ident) => {{
         let tn = stringify!($T);
-        let asan = $rep.args.cfg == "asan";
+        let asan = $rep.args.cfg.starts_with("asan");
         $rep.sweep(&format!("{tn}/{}+{}/lengths 0..N+4 on exact-size heap buffers", stringify!($from), stringify!($write)), ($N + 5) as u64, |idx, acc| {
             let len = idx as usize;
             let vals: Vec<$S> = (0..len).map(|i| <$S as Sc>::fin(i + 1)).collect();
